@@ -197,7 +197,7 @@ func runCase(c Case, outDir string, res *lib.Result) (ret []string) {
 
 func runCaseRaw(c Case, outDir string, res *lib.Result) []string {
 	abs, _ := filepath.Abs(outDir)
-	bin := filepath.Join(filepath.Dir(abs), "bin", "regsync")
+	bin := lib.FindBin(abs, "regsync")
 	work, _ := os.MkdirTemp(os.TempDir(), "c18-")
 	defer os.RemoveAll(work)
 	r := lib.NewRand(c.Seed)
